@@ -1505,6 +1505,12 @@ func (a allocator) release(v any) {
 	}
 }
 
+// Forgets the address of the array which is replaced by a new array. The
+// address may be reused for another array after the garbage collection.
+func (a allocator) free(v []any) {
+	delete(a, reflect.ValueOf(v).Pointer())
+}
+
 func (a allocator) makeObject(l int) map[string]any {
 	v := make(map[string]any, l)
 	if a != nil {
@@ -1719,6 +1725,7 @@ func updateArrayIndex(v []any, i int, path []any, n any, a allocator) (any, erro
 			v[i] = u
 			return v, nil
 		}
+		a.free(v)
 		c *= 2
 	}
 	if i >= l {
@@ -1772,6 +1779,9 @@ func updateArraySlice(v []any, m map[string]any, path []any, n any, a allocator)
 		if len(u) == end-start && a.allocated(v) {
 			w = v
 		} else {
+			if a.allocated(v) {
+				a.free(v)
+			}
 			w = a.makeArray(len(v)-(end-start)+len(u), 0)
 			copy(w, v[:start])
 			copy(w[start+len(u):], v[end:])
